@@ -336,6 +336,10 @@ func (a *lockAnalysis) walkStmts(list []ast.Stmt, recv string, held map[string]s
 				}
 				if top && a.row.Mutex == "" {
 					a.row.Mutex, a.row.Mode, a.row.Unlock = mu, mode, kind
+				} else if top {
+					if _, inside := held[a.row.Mutex]; !inside || mu == a.row.Mutex {
+						a.irregular("a second critical section (%s.%s) after the first one was left", mu, m)
+					}
 				}
 				continue
 			}
